@@ -30,12 +30,22 @@ class WorkflowContext:
 
     @property
     def deterministic(self) -> DeterministicExecutor:
-        """Get the deterministic executor for this workflow context."""
-        if self._deterministic is None:
-            self._deterministic = DeterministicExecutor(
-                self.task.invocation.workflow, self.task.app
-            )
-        return self._deterministic
+        """Get the deterministic executor for the current execution of this task.
+
+        The executor (and its replay position) belongs to one execution of the task
+        body: it is kept on the current invocation object, not on this task-wide
+        helper, so that a retry, a recovery re-run, or the same task running for
+        another workflow in the same process each replay their own workflow's
+        records from the first operation.
+        """
+        invocation = self.task.invocation
+        executor: DeterministicExecutor | None = getattr(
+            invocation, "_deterministic_executor", None
+        )
+        if executor is None:
+            executor = DeterministicExecutor(invocation.workflow, self.task.app)
+            invocation._deterministic_executor = executor  # type: ignore[attr-defined]
+        return executor
 
     @property
     def app(self) -> Pynenc:
